@@ -530,12 +530,16 @@ def tag_value(v):
         return ["f", repr(v)]
     if isinstance(v, str):
         return ["s", v]
+    if v is None:
+        return ["n", None]
+    if isinstance(v, Decimal):
+        return ["d", str(v)]
     return ["o", type(v).__name__, str(v)]
 
 
 def untag(tv):
     return {"b": lambda: bool(tv[1]), "i": lambda: int(tv[1]), "f": lambda: float(tv[1]), "s": lambda: tv[1],
-            "o": lambda: tv[2]}[tv[0]]()
+            "n": lambda: None, "d": lambda: Decimal(tv[1]), "o": lambda: tv[2]}[tv[0]]()
 
 
 def _collector(style):
@@ -583,7 +587,7 @@ def coq_pval(tv):
         return "(VBool %s)" % B(tv[1])
     if tv[0] == "f":
         return "(VFloat %s)" % S(tv[1])
-    return "(VStr %s)" % S("!other:" + tv[1])
+    return "(VStr %s)" % S("!other:" + str(tv[1]))     # not a value the model's collector can hold
 
 
 def to_coq(case, outcome):
@@ -944,6 +948,11 @@ def corpus():
                                          **{"from": ["q", _sel([F("a"), F("b")], where=["t", ["basic", "eq", F("c"), Sv("in"), None]]), "sq0"]})]})
         out.append({"kind": "stmt", "dialect": "sqlite", "sty": sty,
                     "s": ["delete", "t", ["t", ["between", F("a"), I(1), I(3), None]]]})
+        # an integer constant in ORDER BY / GROUP BY: select-list position inline, constant when bound
+        out.append({"kind": "stmt", "dialect": "sqlite", "sty": sty,
+                    "s": ["select", _sel([I(0), I(2), ["basic", "gte", I(2), F("x1"), None]], frm="u", orderby=[[I(3), False]])]})
+        out.append({"kind": "stmt", "dialect": "sqlite", "sty": sty,
+                    "s": ["select", _sel([I(0), I(2), ["basic", "gte", I(2), F("x1"), None]], frm="u", groupby=[I(3)])]})
     for c in out:
         _normalise_raw(c)
     return out
@@ -1053,6 +1062,10 @@ def literal_tokens(v):
         return ([("op", "-")] if neg else []) + [("numv", abs(v))]
     if isinstance(v, str):
         return [("str", v)]
+    if v is None:
+        return [("null", None)]
+    if isinstance(v, Decimal):
+        return ([("op", "-")] if v < 0 else []) + [("decv", abs(v))]
     return [("other", repr(v))]
 
 
@@ -1068,6 +1081,10 @@ def tok_matches(lit, tok):
                (tok[0] == "num" and tok[1] == ("1" if v else "0"))
     if k == "op":
         return tok[0] == "op" and tok[1] == v
+    if k == "null":
+        return tok[0] == "word" and tok[1].lower() == "null"
+    if k == "decv":
+        return tok[0] == "num" and Decimal(tok[1]) == v
     return False
 
 
@@ -1214,8 +1231,36 @@ def oracle(case, outcome):
     if case["kind"] == "stmt" and case["dialect"] == "sqlite":
         d = exec_differs(case, sty, text, P_, params, inline)
         if d:
-            viol("execution", case["s"][0], "result-differs", d)
+            pos = positional_ints(case["s"])
+            if pos:
+                # SQL reads a literal integer in ORDER BY / GROUP BY as a select-list position; a bound parameter is a constant
+                viol("int", pos[0], "positional-reference", "an integer constant in %s is a column position inline but a constant "
+                     "expression when bound: %s" % (pos[0].upper(), d))
+            else:
+                viol("execution", case["s"][0], "result-differs", d)
     return V
+
+
+def positional_ints(x, acc=None):
+    """clauses (order by / group by) of any SELECT of the statement that hold a bare integer constant"""
+    acc = [] if acc is None else acc
+    if isinstance(x, dict):
+        for t, _ in x.get("orderby", []):
+            if t[0] == "vali" and "order by" not in acc:
+                acc.append("order by")
+        for t in x.get("groupby", []):
+            if t[0] == "vali" and "group by" not in acc:
+                acc.append("group by")
+        for v in x.values():
+            positional_ints(v, acc)
+    elif isinstance(x, list):
+        if x and x[0] == "setop" and len(x) == 7:
+            for t, _ in x[4]:
+                if t[0] == "vali" and "order by" not in acc:
+                    acc.append("order by")
+        for v in x:
+            positional_ints(v, acc)
+    return acc
 
 
 def _is_number_text(v):
@@ -1247,11 +1292,16 @@ def fresh_db():
     return db
 
 
+def _sqlite_value(tv):
+    v = untag(tv)
+    return float(v) if isinstance(v, Decimal) else v      # sqlite3 has no Decimal adapter
+
+
 def to_sqlite(sty, text, toks, params):
     """(text, parameters) in a form sqlite3 accepts; placeholders rewritten token-wise"""
     ph_re = PH_RE[sty]
     if sty == "qmark":
-        return text, [untag(v) for _, v in params]
+        return text, [_sqlite_value(v) for _, v in params]
     out, last = [], 0
     for k, v, s, e in toks:
         if k == "ph" and ph_re.fullmatch(v):
@@ -1261,8 +1311,8 @@ def to_sqlite(sty, text, toks, params):
             last = e
     out.append(text[last:])
     if sty in ("named", "pyformat"):
-        return "".join(out), {k: untag(v) for k, v in params}
-    return "".join(out), [untag(v) for _, v in params]
+        return "".join(out), {k: _sqlite_value(v) for k, v in params}
+    return "".join(out), [_sqlite_value(v) for _, v in params]
 
 
 def _dump(db):
